@@ -9,6 +9,13 @@ every accepted parameterisation vs finite differences of the same pricer.
 Sessions (predicate only): several Greeks evaluated one after the other on the SAME caller tensors (two pricers on one grid, call
 then put, a repeated call), float64 data, each result compared - dtype and value to double precision - with the derivative obtained
 by the harness's own reverse-mode differentiation of the same price on fresh leaves.
+Grids (predicate + both correspondences, element by element): the Greeks of every route (functional form, module, autogreek on the module's /
+the functional price under volatility and variance) on tensors of different broadcastable shapes (one volatility / time to maturity for all
+paths as 0-dim or (1,) tensor, one per time step against paths x steps, one per path) and at tiny volatilities / maturities (w = v sqrt(t)
+down to 5e-5, log-moneyness of the order of w), vs the harness's own reverse-mode derivative of the real price on same-shape leaves.
+autogreek on user pricers with the given parameterisation and the pricer's parameter names chosen independently (spot / moneyness /
+log_moneyness x volatility / variance wherever autogreek derives one from the other), broadcastable shapes, volatilities down to 2e-4
+(variances down to 4e-8) and pricers whose vega depends on the volatility at every scale.
 """
 import math
 from common import *  # noqa
@@ -128,6 +135,103 @@ def as_caller_tensor(torch, xs, graph):
     return x.clone().requires_grad_() * 1.0 if graph else x
 
 
+def make_vol_pricer(g, torch):
+    """smooth core(x, vol, t, torch) whose Greeks depend visibly on the volatility at EVERY scale of the volatility (logarithm, square
+    root and powers of vol and of the total variance vol^2 t; a Black-Scholes-like term in log(x) / (vol sqrt t)) - the forms of
+    make_pricer have a vega that is (nearly) constant in vol once vol is small"""
+    a, b, c = g.r.uniform(0.5, 2), g.r.uniform(-1, 1), g.r.uniform(0.2, 1.5)
+    form = g.choice(["logvol", "totalvar", "bslike"])
+
+    def core(x, vol, t, tt):
+        if form == "logvol":
+            return a * x * tt.log(vol) + b * tt.sin(3.0 * vol) * t + c * x * x * tt.sqrt(vol)
+        if form == "totalvar":
+            tv = vol * vol * t
+            return a * x * tt.sqrt(tv) + b * tt.log(tv) * tt.log(x + 1.0) + c * tt.exp(-tv) * x * x
+        w = vol * tt.sqrt(t)
+        z = tt.log(x) / w + 0.5 * w
+        N = lambda y: 0.5 * (1 + torch.erf(y / math.sqrt(2)))
+        return a * (x * N(z) - N(z - w)) + c * vol * x
+    return core, form
+
+
+def shared_shape(g, F):
+    """a shape that broadcasts against the full shape F without being F: one value for everything (0-dim or (1,)), and for
+    paths x steps one value per time step or one per path"""
+    opts = [(), (1,)]
+    if len(F) == 2:
+        opts += [(F[1],), (1, F[1]), (F[0], 1)]
+    return g.choice([o for o in opts if o != F])
+
+
+def grid_shapes(g, names, need_full, p_full=0.4, fulls=((1,), (2,), (3,), (2, 3), (3, 2))):
+    """full shape F and one shape per name: the names in need_full have the shape F, each of the others has F with probability p_full
+    and otherwise a shape that only broadcasts to F; at least one tensor has the shape F"""
+    F = g.choice(list(fulls))
+    shapes = {nm: (F if (nm in need_full or g.chance(p_full)) else shared_shape(g, F)) for nm in names}
+    if F not in shapes.values():
+        shapes[g.choice(list(names))] = F
+    return F, shapes
+
+
+def bs_grid(g, fam, need_full, tiny):
+    """arguments of the Black-Scholes functions of family `fam` on a grid (see grid_shapes; the running maximum has the shape of the
+    log-moneyness).  ordinary: every entry from the marginals of gen_point (the regions of the path-dependent families as in the
+    point-wise sweeps).  tiny: volatility OR time to maturity two to three orders of magnitude below the box of gen_point (volatility
+    2e-4..1e-2, time to maturity 1e-5..5e-3), log-moneyness and running maximum of the order of w = v sqrt(t), so that no Greek is
+    degenerate.  returns (F, shapes, flat values per name, strike)"""
+    pd = fam in ("american_binary", "lookback")
+    F, shapes = grid_shapes(g, "stv", need_full)
+    cnt = {nm: math.prod(sh) for nm, sh in shapes.items()}
+    k = gen_point(g)[3]
+    if tiny:
+        if g.chance(0.5):
+            v_b, t_b = 10 ** g.r.uniform(-3.7, -2), g.choice([g.r.uniform(0.05, 3), 1.0, 0.25])
+        else:
+            v_b, t_b = g.choice([g.r.uniform(0.05, 0.9), 0.2]), 10 ** g.r.uniform(-5, -2.3)
+        w = v_b * math.sqrt(t_b)
+        tv = [t_b * g.r.uniform(0.8, 1.25) for _ in range(cnt["t"])]
+        vv = [v_b * g.r.uniform(0.8, 1.25) for _ in range(cnt["v"])]
+    else:
+        w = 1.0
+        tv = [gen_point(g)[1] for _ in range(cnt["t"])]
+        vv = [gen_point(g)[2] for _ in range(cnt["v"])]
+    sv, mv = [], []
+    for _ in range(cnt["s"]):
+        if tiny:
+            s = w * g.r.uniform(-3, 3)
+            m = s + w * g.r.uniform(0, 2) if g.chance(0.7) else s
+        else:
+            s, _, _, _, m = gen_point(g, pd)
+        if fam == "american_binary":
+            r_ = g.r.random()
+            if r_ < 0.65:                              # continuation region
+                s = -abs(s) - 0.02 * w
+                m = min(-0.01 * w, s + g.r.uniform(0, 0.3) * w) if g.chance(0.7) else s
+            elif r_ < 0.8:                             # barrier touched exactly, spot back below
+                s, m = -abs(s) - 0.02 * w, 0.0
+            else:                                      # barrier exceeded (spot below or above)
+                m = abs(m) + 0.0
+        elif fam == "lookback":
+            if not tiny and abs(m) < 0.02:
+                m = m + 0.05 if m >= s + 0.05 else m
+        else:
+            m = s
+        sv.append(s)
+        mv.append(m)
+    shapes["m"] = shapes["s"]
+    return F, shapes, {"s": sv, "m": mv, "t": tv, "v": vv}, k
+
+
+def natural_scale(fam, greek, k, t, v):
+    """order of magnitude of a Greek of the family where log-moneyness is of the order of w = v sqrt(t) (European / lookback prices
+    scale with the strike, the binaries with 1)"""
+    w = v * math.sqrt(t)
+    if fam in ("european", "lookback"):
+        return {"delta": 1.0, "gamma": 1.0 / (k * w), "vega": k * math.sqrt(t), "theta": k * v / math.sqrt(t)}[greek]
+    return {"delta": 1.0 / (k * w), "gamma": 1.0 / (k * w) ** 2, "vega": 1.0 / v, "theta": 1.0 / t}[greek]
+
+
 def check(ctx):
     torch, pfhedge = import_impl()
     import pfhedge.autogreek as ag
@@ -177,6 +281,118 @@ def check(ctx):
             if fd is not None:
                 ctx.fail(f"bs_{fn} is not the {greek} (derivative) of its own price", case, key=f"bs_{fn}:not-derivative",
                          detail={"closed_form": got, "finite_difference": fd})
+    # ---------------- grids: the same Greeks on tensors of DIFFERENT shapes that broadcast (one volatility / time to maturity for all
+    # paths as a 0-dim or (1,) tensor, one per time step against paths x steps, one per path ...) and at tiny volatilities / maturities.
+    # Routes: functional form, module, autogreek on the module's / the functional price (volatility or variance parameterisation).
+    # The Greek has to be the derivative of the price ELEMENT BY ELEMENT of the broadcast grid; the reference is the harness's own
+    # reverse-mode derivative of the real price on fresh same-shape leaves.  Where the route differentiates by autograd with respect to
+    # a tensor of the caller (autogreek, the module Greeks built on it, the spot leaf of the functional lookback Greeks) that tensor has
+    # the full shape - the gradient with respect to a smaller tensor is by definition the sum over the broadcast elements.
+    import pfhedge.nn as pnn
+    import pfhedge.nn.functional as fnl_
+    MODS = {"european": pnn.BSEuropeanOption, "european_binary": pnn.BSEuropeanBinaryOption,
+            "american_binary": pnn.BSAmericanBinaryOption, "lookback": pnn.BSLookbackOption}
+    grid_dual = []
+    for _ in range(170 if ctx.tier == "quick" else 1700):
+        fam = g.choice(["european", "european_binary", "american_binary", "lookback", "lookback"])
+        pd = fam in ("american_binary", "lookback")
+        greek = g.choice(["delta", "gamma", "vega", "theta"])
+        route = g.choice(["functional", "functional", "module", "autogreek"])
+        call = g.chance(0.5) if not pd else True
+        wrt = {"delta": "s", "gamma": "s", "vega": "v", "theta": "t"}[greek]
+        # calling autogreek directly returns, by definition, the gradient with respect to the caller's tensor (the sum over the
+        # broadcast elements when that tensor is smaller than the grid), so there the differentiated tensor has the full shape; the
+        # modules and functional forms have to be element-wise for every broadcast pattern (the autograd-based ones were not: defect
+        # repaired by "fix: autograd-based Black-Scholes greeks are element-wise for broadcast inputs")
+        need = {wrt} if route == "autogreek" else set()
+        tiny = g.chance(0.4)
+        F, shapes, vals, k = bs_grid(g, fam, need, tiny)
+        ten = {nm: torch.tensor(vals[nm], dtype=torch.float64).reshape(shapes[nm]) for nm in vals}
+        # the prices are written in terms of volatility: only vega (parse_volatility) accepts the variance in its place
+        volpar = g.choice(["volatility", "variance"]) if (route == "autogreek" and greek == "vega") else "volatility"
+        VP = ten["v"] * ten["v"] if volpar == "variance" else ten["v"]
+        v_eff = VP.sqrt() if volpar == "variance" else ten["v"]          # the volatility the variance stands for
+        mod = MODS[fam](call=call, strike=k) if not pd else MODS[fam](strike=k)
+        E = lambda x: x.detach().expand(F).clone()
+        M = E(ten["m"])
+        fpricer = route == "functional" or (route == "autogreek" and g.chance(0.5))
+        if fpricer:
+            price_of = lambda s_, t_, v_: call_bs(torch, fam + "_price", s_, t_, v_, k, M, call)
+        elif pd:
+            price_of = lambda s_, t_, v_: mod.price(s_, M, t_, v_)
+        else:
+            price_of = lambda s_, t_, v_: mod.price(s_, t_, v_)
+        if route == "functional":
+            site = f"bs_{fam}_{greek}"
+            st, val, _ = call_impl(call_bs, torch, f"{fam}_{greek}", ten["s"], ten["t"], ten["v"], k, ten["m"], call)
+        elif route == "module":
+            site = f"module:{fam}.{greek}"
+            args = (ten["s"], ten["m"], ten["t"], ten["v"]) if pd else (ten["s"], ten["t"], ten["v"])
+            st, val, _ = call_impl(getattr(mod, greek), *args)
+        else:
+            site = f"autogreek[{'bs_' + fam + '_price' if fpricer else fam + '.price'}/{volpar}].{greek}"
+            params = {"log_moneyness": ten["s"], "time_to_maturity": ten["t"], volpar: VP, "strike": k}
+            if pd:
+                params["max_log_moneyness"] = ten["m"]
+            if fpricer and not pd:
+                params["call"] = call
+            st, val, _ = call_impl(getattr(ag, greek), getattr(fnl_, f"bs_{fam}_price") if fpricer else mod.price, **params)
+        shared = sorted(nm for nm in "smtv" if (pd or nm != "m") and tuple(shapes[nm]) != tuple(F))
+        cls = "+".join((["broadcast"] if shared else []) + (["tiny"] if tiny else [])) or "same-shape"
+        case = {"grid": route, "family": fam, "greek": greek, "call": call, "k": k, "vol_param": volpar, "pricer": "functional" if fpricer else "module",
+                "full_shape": list(F), "shapes": {nm: list(shapes[nm]) for nm in ("smtv" if pd else "stv")}, "tiny": tiny,
+                "s": vals["s"], "m": vals["m"] if pd else None, "t": vals["t"], "v": v_eff.reshape(-1).tolist()}
+        ctx.case(case, True, tag="bs_grid")
+        ctx.stats[f"bs_grid={route}:{fam}:{cls}"] += 1
+        ctx.traces += 1
+        if st != "ok":
+            ctx.fail("Greek raised inside the open parameter domain (tensors of broadcastable shapes / tiny volatility or maturity)", case,
+                     key=f"{site}:{cls}:error", detail=val)
+            continue
+        if tuple(val.shape) != tuple(F):
+            ctx.fail(f"{site} is not the derivative of the price element by element: the price of these arguments has shape {tuple(F)}, "
+                     f"the Greek has shape {tuple(val.shape)}", case, key=f"{site}:{cls}:not-derivative",
+                     detail={"greek": val.detach().reshape(-1).tolist()[:12], "shape": list(val.shape), "price_shape": list(F)})
+            continue
+        Sg, Tg, Vg = E(ten["s"]), E(ten["t"]), E(v_eff)
+        ref = harness_greeks(torch, lambda S_, t_, v_: price_of((S_ / k).log(), t_, v_), k * Sg.exp(), Tg, Vg)[greek].reshape(-1)
+        gotv = val.detach().to(torch.float64).reshape(-1)
+        reported = False
+        for j in range(gotv.numel()):
+            a, b = float(gotv[j]), float(ref[j])
+            sj, tj, vj, mj = float(Sg.reshape(-1)[j]), float(Tg.reshape(-1)[j]), float(Vg.reshape(-1)[j]), float(M.reshape(-1)[j])
+            if not math.isfinite(b):
+                ctx.stats["bs_grid_reference_not_finite"] += 1
+                continue
+            # both sides are double-precision evaluations of smooth formulas (closed form / gamma relation / autograd of the price vs the
+            # harness's autograd of the price): no finite-difference error, so the relative tolerance is far below the one of the
+            # point-wise sweeps; the closed forms cancel terms of relative size up to 1 / w^2.  Floors: those of the point-wise sweeps
+            # of the same routes; at tiny w a thousandth of the natural size of the Greek there.
+            rel = 1e-7
+            if tiny:
+                floor = 1e-3 * natural_scale(fam, greek, k, tj, vj)
+            elif route == "functional" and fam != "lookback":
+                floor = 0.05 * ({"delta": 1.0 / k, "gamma": 1.0 / (k * k), "vega": k, "theta": k}[greek] if fam == "european" else
+                                {"delta": 1.0 / k, "gamma": 1.0 / (k * k), "vega": 1.0, "theta": 1.0}[greek])
+            else:
+                floor = 0.05 * (1.0 / k if greek == "delta" else 1.0 / (k * k) if greek == "gamma" else 1.0)
+            if not abs(a - b) <= rel * max(abs(a), abs(b), floor) and not reported:
+                reported = True
+                ctx.fail(f"{site} is not the {greek} (derivative) of the price element by element"
+                         + (" for arguments of different, broadcastable shapes" if shared else "")
+                         + (" at a tiny volatility / time to maturity" if tiny else ""), case, key=f"{site}:{cls}:not-derivative",
+                         detail={"element": j, "greek": a, "derivative_of_price": b, "s": sj, "t": tj, "v": vj, "m": mj})
+            # correspondence, element by element: closed forms vs the model's closed forms, everything else vs the model's price at dual numbers
+            ecase = {"grid": route, "family": fam, "greek": greek, "call": call, "class": cls, "vol_param": volpar,
+                     "s": sj, "t": tj, "v": vj, "k": k, "m": mj if pd else sj, "element": j, "shapes": case["shapes"]}
+            if route == "functional" and fam != "lookback":
+                items.append((f"{fam}_{greek}", call, [sj, tj, vj, k, mj if pd else sj]))
+                metas.append((ecase | {"fn": f"{fam}_{greek}"}, a))
+            else:
+                grid_dual.append(({"op": "bs_dual", "fn": fam + "_price", "call": call,
+                                   "wrt": {"delta": "spot", "gamma": "spot", "vega": "vol", "theta": "time"}[greek],
+                                   "order": 2 if greek == "gamma" else 1, "elems": [enc_flt([sj, tj, vj, k, mj if pd else sj])]},
+                                  (ecase | ({"fn": f"lookback_{greek}"} if route == "functional" else {"module": fam}), a)))
     try:
         mv = model_vals(ctx, items)
     except DriverBroken as e:
@@ -249,6 +465,9 @@ def check(ctx):
         if fd is not None:
             ctx.fail(f"bs_lookback_{greek} is not the {greek} (derivative) of bs_lookback_price", case, key=f"bs_lookback_{greek}:not-derivative",
                      detail={"functional": got, "finite_difference": fd})
+    for req_, meta_ in grid_dual:
+        dual_reqs.append(req_)
+        dual_meta.append(meta_)
     try:
         douts = ctx.driver(dual_reqs)
     except DriverBroken as e:
@@ -327,6 +546,74 @@ def check(ctx):
         if abs(got - fd) > 1e-5 * max(1.0, abs(fd)):
             ctx.fail(f"autogreek.{greek} is not the derivative of the user pricer with respect to the spot / volatility / (minus) time",
                      case, key=f"autogreek.{greek}:{spotpar}:{volpar}", detail={"autogreek": got, "finite_difference": fd})
+    # ---------------- autogreek on user pricers: the parameterisation GIVEN to autogreek and the names the pricer is written in chosen
+    # independently where autogreek derives one from the other (spot / moneyness / log_moneyness once a strike is given, for delta and
+    # gamma; volatility / variance for vega), tensors of different broadcastable shapes (the differentiated one has the full shape),
+    # volatilities / variances / maturities far below 1; reference = the harness's own reverse-mode derivative on fresh leaves
+    for _ in range(260 if ctx.tier == "quick" else 2600):
+        greek = g.choice(["delta", "gamma", "vega", "vega", "theta"])
+        given_spot = g.choice(["spot", "spot+strike", "moneyness", "log_moneyness"])
+        given_vol = g.choice(["volatility", "variance"])
+        has_strike = given_spot != "spot"
+        gs = given_spot.split("+")[0]
+        p_spot = g.choice(["spot", "moneyness", "log_moneyness"]) if (greek in ("delta", "gamma") and has_strike) else gs
+        p_vol = g.choice(["volatility", "variance"]) if greek == "vega" else given_vol
+        with_strike = has_strike and g.chance(0.5)
+        tiny = g.chance(0.5)
+        core, form = make_vol_pricer(g, torch) if g.chance(0.7 if tiny else 0.3) else make_pricer(g, torch, p_spot, p_vol)
+        pricer = named_pricer(torch, core, p_spot, p_vol, with_strike)
+        wrt = {"delta": "x", "gamma": "x", "vega": "v", "theta": "t"}[greek]
+        F, shapes = grid_shapes(g, "xvt", {wrt}, p_full=0.5, fulls=((1,), (2,), (3,), (2, 2), (2, 3)))
+        cnt = {nm: math.prod(sh) for nm, sh in shapes.items()}
+        Kf = g.choice(DYADIC_STRIKES[:5]) if g.chance(0.5) else g.r.uniform(0.4, 2.5)
+        strike_form = "float" if Kf in DYADIC_STRIKES else "float64-tensor"
+        K = Kf if strike_form == "float" else torch.tensor(Kf, dtype=torch.float64)
+        v_b = 10 ** g.r.uniform(-3.7, -1.7) if tiny else g.r.uniform(0.1, 0.8)
+        t_b = 10 ** g.r.uniform(-3, -0.7) if (tiny and g.chance(0.3)) else g.r.uniform(0.2, 2.0)
+        w_b = v_b * math.sqrt(t_b)
+        vol0 = [v_b * g.r.uniform(0.8, 1.25) for _ in range(cnt["v"])]
+        t0 = [t_b * g.r.uniform(0.8, 1.25) for _ in range(cnt["t"])]
+        near = g.chance(0.5)            # spot within a few total volatilities of the strike, or anywhere
+        S0 = [Kf * math.exp(w_b * g.r.uniform(-2, 2)) if near else g.r.uniform(0.5, 2.0) for _ in range(cnt["x"])]
+        T_ = lambda xs, nm: torch.tensor(xs, dtype=torch.float64).reshape(shapes[nm])
+        X = T_(S0 if gs == "spot" else [s_ / Kf for s_ in S0] if gs == "moneyness" else [math.log(s_ / Kf) for s_ in S0], "x")
+        VP = T_(vol0 if given_vol == "volatility" else [v_ * v_ for v_ in vol0], "v")
+        TM = T_(t0, "t")
+        E = lambda x: x.detach().expand(F).clone()
+        Sx = E(X if gs == "spot" else X * Kf if gs == "moneyness" else X.exp() * Kf)
+        Vx = E(VP if given_vol == "volatility" else VP.sqrt())
+        x_of = (lambda S: S) if (p_spot == "spot" or with_strike) else (lambda S: S / Kf)
+        ref = harness_greeks(torch, lambda S, t, v: core(x_of(S), v, t, torch), Sx, E(TM), Vx)[greek].reshape(-1)
+        params = {gs: X, given_vol: VP, "time_to_maturity": TM}
+        if has_strike:
+            params["strike"] = K
+        st, val, _ = call_impl(getattr(ag, greek), pricer, **params)
+        shared = sorted(nm for nm in "xvt" if tuple(shapes[nm]) != tuple(F))
+        cls = "+".join((["cross"] if (p_spot, p_vol) != (gs, given_vol) else []) + (["broadcast"] if shared else []) + (["tiny"] if tiny else [])) or "plain"
+        case = {"autogreek": greek, "given": [given_spot, given_vol], "pricer_params": [p_spot, p_vol], "pricer_has_strike": with_strike, "form": form,
+                "S": S0, "vol": vol0, "t": t0, "K": Kf, "strike_given_as": strike_form if has_strike else None, "full_shape": list(F),
+                "shapes": {"spot_like": list(shapes["x"]), "vol_like": list(shapes["v"]), "time_to_maturity": list(shapes["t"])}}
+        ctx.case(case, True, tag="autogreek_grid")
+        ctx.stats[f"autogreek_grid={greek}:{cls}"] += 1
+        ctx.traces += 1
+        key = f"autogreek.{greek}:{given_spot}->{p_spot}:{given_vol}->{p_vol}:{cls}"
+        if st != "ok":
+            ctx.fail("autogreek raised on a smooth pricer (given parameterisation -> pricer parameterisation)", case, key=key + ":error", detail=val)
+            continue
+        if tuple(val.shape) != tuple(F):
+            ctx.fail(f"autogreek.{greek} is not the derivative of the user pricer element by element (price shape {tuple(F)}, Greek shape {tuple(val.shape)})",
+                     case, key=key, detail={"shape": list(val.shape), "price_shape": list(F)})
+            continue
+        gotv = val.detach().to(torch.float64).reshape(-1)
+        for j in range(gotv.numel()):
+            a, b = float(gotv[j]), float(ref[j])
+            # both sides are reverse-mode derivatives in double precision of the same smooth function; the re-parameterisations
+            # (exp / log / sqrt / square round trips) move the point by a few ulp, the conditioning is at most 1 / w <= 1e5
+            if not abs(a - b) <= 1e-9 * max(abs(b), 1.0):
+                ctx.fail(f"autogreek.{greek} (given {given_spot}, {given_vol}; pricer in terms of {p_spot}, {p_vol}) is not the derivative of the user "
+                         "pricer with respect to the spot / volatility / (minus) time", case, key=key,
+                         detail={"element": j, "autogreek": a, "derivative_of_pricer": b, "rel": abs(a - b) / max(abs(b), 1.0)})
+                break
     # ---------------- sessions: several automatic Greeks on the same caller tensors, float64, judged to double precision
     import pfhedge.nn.functional as fnl
 
@@ -522,4 +809,10 @@ def check(ctx):
              "continuation region), module Greeks incl. autogreek-based lookback, autogreek on generated pricers x {spot, moneyness, log_moneyness} x "
              "{volatility, variance}; sessions of 3-6 automatic Greeks on the same float64 caller tensors (user pricers, module prices: module / "
              "autogreek / functional routes; plain and autograd-tracked inputs; float and float64-tensor strikes) vs the harness's own double-precision "
-             "derivative; the same single evaluations with Python float strikes that are not float32 values; non-trivial = t != 1 or K != 1 (closed forms), all others; distinct = sha1 of canonical case")
+             "derivative; the same single evaluations with Python float strikes that are not float32 values; grids: every route (functional / module / "
+             "autogreek on the price, volatility and variance) x 4 families x 4 Greeks on tensors of different broadcastable shapes (0-dim, (1,), per step, "
+             "per path against paths x steps; the tensor an autograd route differentiates by has the full shape) and at tiny volatility / maturity "
+             "(v >= 2e-4 or t >= 1e-5, log-moneyness ~ v sqrt t), element by element vs the harness's derivative of the real price and vs the model "
+             "(ops bs, bs_dual); autogreek on user pricers with given parameterisation x pricer parameter names chosen independently, broadcastable "
+             "shapes, volatility down to 2e-4, pricers in log / sqrt / Black-Scholes-like functions of the volatility; "
+             "non-trivial = t != 1 or K != 1 (closed forms), all others; distinct = sha1 of canonical case")
